@@ -92,7 +92,7 @@ def run_instance(args):
         # ensures must hold natively too (they were proved), otherwise the engine's model is wrong
         undecided_vcs = [d for d in out["vcs"] if d["result"] not in ("sat", "unsat")]
         if refuted == 0 and not undecided_vcs and not ex.errors and ex.symbols:
-            out["conformance"] = conformance(h, ex, seed, 3 if tier == "quick" else 10)
+            out["conformance"] = conformance(h, ex, seed, 2 if tier == "quick" else 10)
         elif undecided_vcs and ex.symbols:
             # the solvers gave no verdict: look for a concrete witness by running the real code on
             # solver-sampled inputs that satisfy the precondition (falsification by replay)
@@ -192,7 +192,7 @@ def conformance(h, ex, seed, k, apply_stubs=True):
         sym._fact_sink[0] = None
     forms = [f for f, tag in path.facts if tag in ("pre",) or tag.startswith("A-fit") or tag.startswith("pre")]
     s = z3.Solver()
-    s.set("timeout", 5000)
+    s.set("timeout", 1500)
     s.set("random_seed", seed % 1000)
     s.add(*forms)
     names = sorted(ex2.symbols)
